@@ -91,7 +91,36 @@ def spec_classname_valid(prefix: str = "field_") -> dict:
     }
 
 
-SPECS = {"pyident_valid": spec_pyident_valid, "classname_valid": spec_classname_valid}
+def spec_package_name() -> dict:
+    """The package name Project.__init__ derives from info.title when no override is given (call site isolated as a
+    function whose text is checked against the real source, shared with C19)."""
+    from openapi_python_client import utils
+
+    from .C19 import spec_project_dir
+
+    spec_project_dir()  # builds and source-checks the isolated kernels
+    import vlib.props.C19 as c19
+
+    def real(t):
+        return [f"{utils.kebab_case(t).lower()}-client".replace("-", "_")]
+
+    def cv(t):
+        r = real(t)[0]
+        return (not _valid(r), r)
+
+    return {
+        "fn": c19._pkg_kernel,
+        "make_args": lambda i: ([i[0]], {}),
+        "real": real,
+        "terms": lambda enc: [enc.result],
+        "violation": lambda enc: z3.Or(z3.Not(core.isidentifier(core.as_bstr(enc.result))), core.iskeyword(core.as_bstr(enc.result))),
+        "concrete_violation": cv,
+        "classes": CLASSES,
+        "what": "the package name derived from info.title (kebab_case(title).lower() + '-client', dashes to underscores) is a non-keyword identifier",
+    }
+
+
+SPECS = {"pyident_valid": spec_pyident_valid, "classname_valid": spec_classname_valid, "package_name": spec_package_name}
 
 
 def replay(w: dict) -> dict:
@@ -114,6 +143,7 @@ def obligations(tier: str) -> list[Ob]:
     # other field_prefix values: the degenerate empty prefix and a prefix that can glue onto a keyword remainder
     for prefix in ["", "f", "el"]:
         obs += spec_obs(M, "pyident_valid", f"pyident_valid_letters[{prefix!r}]", {"prefix": prefix, "skip": False, "domain": "letters"}, "pyident_valid_letters", list(range(1, (5 if q else 7) + 1)), 99, to)
+    obs += spec_obs(M, "package_name", "package_name_valid", {}, "package_name_valid", list(range(0, (3 if q else 5) + 1)), 99, to)
     from ..e2 import harness_ob
 
     obs.append(
